@@ -286,6 +286,134 @@ def rule_debug_buffer_belief(col, facts):
 
 
 # ---------------------------------------------------------------------------------------------
+def rule_rte_window(col, facts):
+    """CFG-tie (Eisel-Lemire): the branch that clears the low bit for an exact tie (`mantissa &= !1`) is
+    entered for the *closed* window MIN_EXPONENT_ROUND_TO_EVEN <= q <= MAX_EXPONENT_ROUND_TO_EVEN (whose
+    values TBL-limits checks): with either end excluded the ties at that q round up to the odd neighbour."""
+    from rules.core import enum_paths
+    if facts.config.startswith("compact"):
+        return
+    R = "CFG-tie"
+    f = facts.fn(PF + "lemire::compute_float")
+    tg = set()
+    for i, b in enumerate(f.blocks):
+        if not f.live(i):
+            continue
+        for st in b["s"]:
+            if st[0] == "=" and st[2][0] == "bin" and st[2][1] == "BitAnd":
+                e = rvalue_expr(f, st[2], 0)
+                if e[3] == ("un", "Not", ("k", 1)):
+                    tg.add(i)
+    col.check(R, "anchor:clear-low-bit", len(tg) == 1, "`mantissa &= !1` not found exactly once (%d)" % len(tg), f.loc())
+    if len(tg) != 1:
+        return
+    def which(e):
+        names = [last_seg(c[1]) for c in expr_consts(e)]
+        if "MIN_EXPONENT_ROUND_TO_EVEN" in names and "MAX_EXPONENT_ROUND_TO_EVEN" not in names:
+            return "MIN"
+        if "MAX_EXPONENT_ROUND_TO_EVEN" in names and "MIN_EXPONENT_ROUND_TO_EVEN" not in names:
+            return "MAX"
+        return None
+    paths = enum_paths(f, 0, tg)
+    col.check(R, "paths", len(paths) >= 1, "tie branch unreachable", f.loc())
+    verdict = {"MIN": None, "MAX": None}
+    why = {}
+    for _t, atoms in paths:
+        got = {"MIN": None, "MAX": None}
+        for e, p in atoms:
+            e = strip_casts(e)
+            if e[0] == "call" and last_seg(e[1]) == "contains" and p is True:
+                incl = "RangeInclusive" in e[1]
+                names = {last_seg(c[1]) for c in expr_consts(e)}
+                import json as _json
+                def _walk(x):
+                    if isinstance(x, tuple):
+                        if x and x[0] == "kprom" and x[1] < len(f.promoted):
+                            txt = _json.dumps(f.promoted[x[1]]["blocks"])
+                            for nm in ("MIN_EXPONENT_ROUND_TO_EVEN", "MAX_EXPONENT_ROUND_TO_EVEN"):
+                                if nm in txt:
+                                    names.add(nm)
+                        for y in x:
+                            _walk(y)
+                _walk(e)
+                if "MIN_EXPONENT_ROUND_TO_EVEN" in names:
+                    got["MIN"] = True
+                if "MAX_EXPONENT_ROUND_TO_EVEN" in names:
+                    got["MAX"] = incl
+                    if not incl:
+                        why["MAX"] = "half-open range `..MAX`"
+                continue
+            if e[0] != "bin" or e[1] not in ("Lt", "Le", "Gt", "Ge") or not isinstance(p, bool):
+                continue
+            a, b_ = strip_casts(e[2]), strip_casts(e[3])
+            op = e[1]
+            side = which(b_)
+            if side is None and which(a) is not None:       # bound on the left: flip
+                side = which(a)
+                op = {"Lt": "Gt", "Gt": "Lt", "Le": "Ge", "Ge": "Le"}[op]
+            if side is None:
+                continue
+            if not p:
+                op = {"Lt": "Ge", "Ge": "Lt", "Gt": "Le", "Le": "Gt"}[op]
+            # now: q OP bound holds on this path
+            if side == "MIN":
+                got["MIN"] = (op == "Ge")
+                if op != "Ge":
+                    why["MIN"] = "q %s MIN" % op
+            else:
+                got["MAX"] = (op == "Le")
+                if op != "Le":
+                    why["MAX"] = "q %s MAX" % op
+        for k in ("MIN", "MAX"):
+            if verdict[k] is None or verdict[k] is True:
+                verdict[k] = got[k] if got[k] is not None else False
+                if got[k] is None:
+                    why.setdefault(k, "no comparison with %s_EXPONENT_ROUND_TO_EVEN on a path into the tie branch" % k)
+    for k in ("MIN", "MAX"):
+        col.check(R, "compute_float:tie-window-%s-inclusive" % k.lower(), verdict[k] is True,
+                  "the exact-tie branch is not entered for q == %s_EXPONENT_ROUND_TO_EVEN (%s): halfway inputs with that exponent round up to the odd neighbour" % (k, why.get(k, "?")), f.loc(f.blocks[list(tg)[0]]["ts"]))
+
+
+def rule_hi_truncation(col, facts):
+    """UNIT-sticky (hi-words): the N-word `uXX_to_hiYY_N` helpers return (top bits, truncated?).  With more
+    than one input word the flag must depend on the lower words on every path: a literal `false` claims
+    nothing was dropped although a whole word below may be non-zero (an above-halfway value then rounds as
+    an exact tie)."""
+    import re
+    R = "UNIT-sticky"
+    n = 0
+    for f in facts.all_fns():
+        m = re.match(r"lexical_parse_float::bigint::u(\d+)_to_hi(\d+)_(\d)$", f.short)
+        if not m or int(m.group(3)) < 2:
+            continue
+        nwords = int(m.group(3))
+        n += 1
+        consts = []
+        deps_ok = True
+        for i, b in enumerate(f.blocks):
+            if not f.live(i):
+                continue
+            for st in b["s"]:
+                if st[0] != "=":
+                    continue
+                # the flag is component 1 of the returned tuple
+                if st[1][0] == 0 and st[2][0] == "agg" and len(st[2][2]) == 2:
+                    e = strip_casts(op_expr(f, st[2][2][1]))
+                    if e[0] == "k":
+                        consts.append((e[1], st[3]))
+                    elif e[0] == "var":
+                        # multi-def flag local: look at each definition
+                        for bb2, j2, rv2, pr2 in f.defs().get(e[1], []):
+                            if rv2[0] == "use" and rv2[1][0] == "k":
+                                consts.append((rv2[1][1].get("v"), f.blocks[bb2]["s"][j2][3] if j2 is not None and j2 < len(f.blocks[bb2]["s"]) else st[3]))
+                if st[1] == [0, [1]] and st[2][0] == "use" and st[2][1][0] == "k":
+                    consts.append((st[2][1][1].get("v"), st[3]))
+        col.check(R, "%s:flag" % last_seg(f.short), not any(v is False for v, _ in consts),
+                  "returns truncated = false as a literal on some path although %d lower word(s) were dropped from the result" % (nwords - 1), f.loc(consts[0][1]) if consts else f.loc())
+    col.floor(R, "multi-word hi helpers", n, 2)
+
+
+# ---------------------------------------------------------------------------------------------
 def rule_bigfloat_bits(col, facts):
     """TBL-limits (Bigfloat): byte_comp scales b+h by radix^|sci_exp| up to 2^1075 and multiplies by a
     64-bit significand: EXPONENT_BIAS + 64 bits at least."""
